@@ -63,6 +63,8 @@ func init() {
 			ruleTokenWrite(c, "client")
 			ruleTokenClose(c)
 			ruleFirstWaiterReleases(c)
+			ruleBatchWaitsAll(c)
+			rulePendingTablesNeverReplaced(c, c.M.CPending)
 			ruleDeliveryLoopVisitsAll(c)
 			ruleTokenBuffered(c)
 			c.Clause("C05-D2")
@@ -110,6 +112,8 @@ func init() {
 			ruleTokenBuffered(c)
 			ruleStopCancelsTable(c, "server", c.M.SCall, c.M.RCancel, "pending callbacks")
 			ruleCallbackTakeCompletes(c)
+			rulePendingTablesNeverReplaced(c, c.M.SCall)
+			ruleRequestPredicateTable(c)
 			ruleLockField(c, "server", c.M.SCall, c.M.SCallID)
 			c.Clause("C09-D5/D6")
 			ruleReplyFilter(c)
